@@ -32,6 +32,11 @@ impl ChoicePoint {
         }
     }
 
+    #[cfg(feature = "verif-hooks")]
+    pub fn verif_raw_path_on_choice(&self) -> Path {
+        self.path_on_choice.borrow().clone()
+    }
+
     pub fn get_choice_target(self: &Rc<Self>) -> Option<Rc<Container>> {
         Object::resolve_path(self.clone(), &self.path_on_choice.borrow()).container()
     }
